@@ -103,7 +103,7 @@ InsertOps(x) == << [op |-> "headH", b |-> x], [op |-> "canon", b |-> x], [op |->
 \* rawdb.WriteTxLookupEntries directly on the database: one Put per transaction
 TxlOps(x) == [k \in 1..Cardinality(Txs(x)) |-> [op |-> "txl", b |-> x, t |-> SetSeq(Txs(x))[k]]]
 \* rawdb.WriteBlock: body, hash->number, header
-\* rawdb.WriteBlock: header (hash->number, header) first, then the body (since /repo commit 097d4db; body first before)
+\* rawdb.WriteBlock: header (hash->number, header) first, then the body (since /repo commit 91974b7; body first before)
 StoreOps(b) == << [op |-> "hnum", b |-> b], [op |-> "hdr", b |-> b], [op |-> "body", b |-> b] >>
 
 \* WriteBlockWithState(b) with the current head s.cur
